@@ -36,29 +36,29 @@ impl<'a> WireFormat<'a> for RRSIG<'a> {
     where
         Self: Sized,
     {
-        let type_covered = u16::from_be_bytes(data[*position..*position + 2].try_into()?);
+        let type_covered = u16::from_be_bytes(data.get(*position..*position + 2).ok_or(crate::SimpleDnsError::InsufficientData)?.try_into()?);
         *position += 2;
 
-        let algorithm = data[*position];
+        let algorithm = *data.get(*position).ok_or(crate::SimpleDnsError::InsufficientData)?;
         *position += 1;
 
-        let labels = data[*position];
+        let labels = *data.get(*position).ok_or(crate::SimpleDnsError::InsufficientData)?;
         *position += 1;
 
-        let original_ttl = u32::from_be_bytes(data[*position..*position + 4].try_into()?);
+        let original_ttl = u32::from_be_bytes(data.get(*position..*position + 4).ok_or(crate::SimpleDnsError::InsufficientData)?.try_into()?);
         *position += 4;
 
-        let signature_expiration = u32::from_be_bytes(data[*position..*position + 4].try_into()?);
+        let signature_expiration = u32::from_be_bytes(data.get(*position..*position + 4).ok_or(crate::SimpleDnsError::InsufficientData)?.try_into()?);
         *position += 4;
 
-        let signature_inception = u32::from_be_bytes(data[*position..*position + 4].try_into()?);
+        let signature_inception = u32::from_be_bytes(data.get(*position..*position + 4).ok_or(crate::SimpleDnsError::InsufficientData)?.try_into()?);
         *position += 4;
 
-        let key_tag = u16::from_be_bytes(data[*position..*position + 2].try_into()?);
+        let key_tag = u16::from_be_bytes(data.get(*position..*position + 2).ok_or(crate::SimpleDnsError::InsufficientData)?.try_into()?);
         *position += 2;
 
         let signer_name = Name::parse(data, position)?;
-        let signature = Cow::Borrowed(&data[*position..]);
+        let signature = Cow::Borrowed(data.get(*position..).ok_or(crate::SimpleDnsError::InsufficientData)?);
         *position += signature.len();
 
         Ok(Self {
